@@ -274,4 +274,124 @@ theorem shortest_roundtrips' {f : Fmt} (hf : WF f) {b : Nat} (hb0 : 0 < b) (hb :
     have := hi2 (cstrict (hincl hne)).2
     omega
 
+/-! ## minimality: `shortest` stops at the largest exponent that admits a candidate -/
+
+theorem shortestGo_first (iv : Interval) (fuel : Nat) (E0 : Int) (D : Nat) (E : Int)
+    (h : (D, E) ∈ shortestGo iv fuel E0) :
+    E ≤ E0 ∧ ∀ E', E < E' → E' ≤ E0 → ¬ ((candRange iv E').1 ≤ (candRange iv E').2) := by
+  induction fuel generalizing E0 with
+  | zero => simp [shortestGo] at h
+  | succ n ih =>
+    unfold shortestGo at h
+    simp only [] at h
+    split at h
+    · obtain ⟨d, _, he⟩ := List.mem_map.mp h
+      simp only [Prod.mk.injEq] at he
+      obtain ⟨_, rfl⟩ := he
+      exact ⟨le_refl _, fun E' h1 h2 => by omega⟩
+    · rename_i hne
+      obtain ⟨i1, i2⟩ := ih _ h
+      refine ⟨by omega, fun E' h1 h2 => ?_⟩
+      by_cases he : E' = E0
+      · subst he; exact hne
+      · exact i2 E' h1 (by omega)
+
+theorem ceil_ge {P a D : Nat} (hP : 0 < P) (h : a ≤ D * P) : (a + P - 1) / P ≤ D := by
+  have : (a + P - 1) / P < D + 1 := by
+    rw [Nat.div_lt_iff_lt_mul hP, Nat.succ_mul]; omega
+  omega
+
+/-- converse of `candRange_spec` -/
+theorem candRange_complete (iv : Interval) (E : Int) (P Q : Nat) (hPQ : scalePQ iv.e2 E = (P, Q))
+    (hP : 0 < P) (D : Nat) (hD1 : 1 ≤ D) (hlo : iv.lo * Q ≤ D * P) (hhi : D * P ≤ iv.hi * Q)
+    (hs : iv.incl = false → iv.lo * Q < D * P ∧ D * P < iv.hi * Q) :
+    (candRange iv E).1 ≤ D ∧ D ≤ (candRange iv E).2 := by
+  unfold candRange
+  simp only [hPQ]
+  generalize iv.lo * Q = loN at *
+  generalize iv.hi * Q = hiN at *
+  have g1 : (loN + P - 1) / P ≤ D := ceil_ge hP hlo
+  have g2 : D ≤ hiN / P := (Nat.le_div_iff_mul_le hP).mpr hhi
+  by_cases hin : iv.incl = true
+  · simp only [hin, not_true_eq_false, false_and, if_false]
+    exact ⟨max_le g1 hD1, g2⟩
+  · have hin' : iv.incl = false := by simpa using hin
+    obtain ⟨s1, s2⟩ := hs hin'
+    simp only [hin', Bool.false_eq_true, not_false_eq_true, true_and]
+    constructor
+    · apply max_le _ hD1
+      split
+      · rename_i hm
+        obtain ⟨c, hc⟩ : ∃ c, loN = P * c := ⟨loN / P, by have := Nat.div_add_mod loN P; omega⟩
+        have hcD : c < D := by
+          rw [hc, Nat.mul_comm] at s1; exact Nat.lt_of_mul_lt_mul_right s1
+        have : (loN + P - 1) / P ≤ c := ceil_ge hP (by rw [hc, Nat.mul_comm])
+        omega
+      · exact g1
+    · split
+      · rename_i hm
+        obtain ⟨c, hc⟩ : ∃ c, hiN = P * c := ⟨hiN / P, by have := Nat.div_add_mod hiN P; omega⟩
+        have hcD : D < c := by
+          rw [hc, Nat.mul_comm P] at s2; exact Nat.lt_of_mul_lt_mul_right s2
+        have : hiN / P = c := by rw [hc]; exact Nat.mul_div_cancel_left c hP
+        omega
+      · exact g2
+
+/-- any decimal `D'·10^E'` (`D' ≥ 1`) that rounds to `b` is in the candidate range at scale `E'` -/
+theorem cand_complete {f : Fmt} (hf : WF f) {b : Nat} (hb0 : 0 < b) (hb : b < f.infBits)
+    {D : Nat} {E : Int} (hD1 : 1 ≤ D) (hrt : roundNE f (decFrac D E).1 (decFrac D E).2 = b) :
+    (candRange (interval f b) E).1 ≤ D ∧ D ≤ (candRange (interval f b) E).2 := by
+  obtain ⟨k, q, hbk, h1, h2, hiv⟩ := interval_eq hf hb
+  have hPQ := scalePQ_eq (interval f b).e2 E
+  obtain ⟨an_pos, ad_pos⟩ := binFrac_pos (interval f b).e2
+  obtain ⟨tn_pos, td_pos⟩ := tenFrac_pos E
+  have cell := inCell_roundNE hf (decFrac D E).1 (Nat.ne_of_gt (show 0 < (decFrac D E).2 by
+    rw [decFrac_eq]; exact td_pos))
+  rw [hrt] at cell
+  apply candRange_complete _ E _ _ hPQ (Nat.mul_pos tn_pos ad_pos) D hD1
+  all_goals rw [hiv]; rw [hiv] at an_pos ad_pos
+  all_goals simp only [] at an_pos ad_pos ⊢
+  all_goals
+    have hsc := binFrac_scale k (L f)
+    obtain ⟨mid_hi, mid_lo⟩ := cell_midpoints (f := f) k q h1 h2 (by rw [← hbk]; omega)
+    rw [← hbk] at mid_hi mid_lo
+    obtain ⟨t, ht, _⟩ := T_even hf
+    have hpar : b % 2 = q % 2 := by rw [hbk, ht, Nat.mul_left_comm]; omega
+    have hlo := cell.lower (by omega)
+    have hhi := cell.upper hb
+    have hlot := cell.lower_tie (by omega)
+    have hhit := cell.upper_tie hb
+    clear cell
+    generalize (binFrac ((k : Int) - (L f : Int) - 2)).1 = an at *
+    generalize (binFrac ((k : Int) - (L f : Int) - 2)).2 = ad at *
+    rw [decFrac_eq] at hlo hhi hlot hhit
+    dsimp only at hlo hhi hlot hhit
+    generalize (tenFrac E).1 = tn at *
+    generalize (tenFrac E).2 = td at *
+    generalize (if q = 2 ^ (f.p - 1) ∧ 0 < k then 4 * q - 1 else 4 * q - 2) = lo at *
+    have hS : 0 < 2 ^ (L f) * 4 := by positivity
+    have hc : 0 < 2 * ad := by omega
+    have eXlo : td * (ival f (b - 1) + ival f b) * (2 * ad) = lo * (an * td) * (2 ^ (L f) * 4) := by
+      calc td * (ival f (b - 1) + ival f b) * (2 * ad)
+          = td * ((ival f (b - 1) + ival f b) * 2) * ad := by ring
+        _ = td * lo * (ad * 2 ^ k) := by rw [mid_lo]; ring
+        _ = td * lo * (an * 2 ^ (L f) * 4) := by rw [hsc]
+        _ = lo * (an * td) * (2 ^ (L f) * 4) := by ring
+    have eXhi : td * (ival f b + ival f (b + 1)) * (2 * ad) = (4 * q + 2) * (an * td) * (2 ^ (L f) * 4) := by
+      calc td * (ival f b + ival f (b + 1)) * (2 * ad)
+          = td * ((ival f b + ival f (b + 1)) * 2) * ad := by ring
+        _ = td * (4 * q + 2) * (ad * 2 ^ k) := by rw [mid_hi]; ring
+        _ = td * (4 * q + 2) * (an * 2 ^ (L f) * 4) := by rw [hsc]
+        _ = (4 * q + 2) * (an * td) * (2 ^ (L f) * 4) := by ring
+    have eY : 2 * (D * tn * 2 ^ (L f)) * (2 * ad) = D * (tn * ad) * (2 ^ (L f) * 4) := by ring
+    obtain ⟨lo1, lo2⟩ := scale_cmp hS hc eXlo.symm eY.symm
+    obtain ⟨hi1, hi2⟩ := scale_cmp hS hc eY.symm eXhi.symm
+  · exact lo1 hlo
+  · exact hi1 hhi
+  · intro hincl
+    have hodd : b % 2 ≠ 0 := by rw [hpar]; simpa using hincl
+    constructor
+    · exact lo2 (lt_of_le_of_ne hlo (fun he => hodd (hlot he)))
+    · exact hi2 (lt_of_le_of_ne hhi (fun he => hodd (hhit he)))
+
 end LexVerif.Proof.RoundNE
